@@ -7,11 +7,9 @@ from vxlib import Unit, Clause
 B = 'tonic/src/codec/buffer.rs'
 
 SHIMS = r'''
-// A-bytes-30: BytesMut as a contiguous Buf / BufMut: chunk() is all readable bytes, copy_to_bytes(n) / put_bytes as documented,
+// A-bytes-30: BytesMut as a contiguous Buf / BufMut (chunk() is in the prelude): copy_to_bytes(n) / put_bytes as documented,
 // remaining_mut() is usize::MAX - len
 impl BytesMut {
-    #[verifier::external_body]
-    pub fn chunk(&self) -> (r: &[u8]) ensures r@ == self@ { unimplemented!() }
     #[verifier::external_body]
     pub fn copy_to_bytes(&mut self, n: usize) -> (r: Bytes)
         requires n <= old(self)@.len()
